@@ -60,6 +60,8 @@ pub enum Edit {
     RemoveEdge { down: usize, up: usize },
     /// bump the external input of an Always job (function body / parameter / file changed)
     BumpExt { def: usize },
+    /// take the last change of the external input back (parameter changed and changed back)
+    RevertExt { def: usize },
     /// delete the materialised parts of an Output job from disk (None = all parts)
     DeleteOutput { def: usize, part: Option<u8> },
     /// multi-output job gains/loses parts: id changes, edges kept
@@ -285,6 +287,12 @@ impl GraphState {
             }
             Edit::BumpExt { def } => {
                 *self.ext.entry(*def).or_insert(0) += 1;
+            }
+            Edit::RevertExt { def } => {
+                let e = self.ext.entry(*def).or_insert(0);
+                if *e > 0 {
+                    *e -= 1;
+                }
             }
             Edit::DeleteOutput { .. } => {} // handled by the world (disk)
             Edit::SetParts { def, parts } => {
